@@ -16,7 +16,7 @@ VARIABLES phase, tree, script
 vars == <<phase, tree, script>>
 
 Node(k, c, a) == [k |-> k, c |-> c, a |-> a]
-Body(id, beh, wd, wm, we) == Node("body", <<>>, <<id, beh, wd, wm, we>>)
+Body(id, beh, wd, wm, we, wi) == Node("body", <<>>, <<id, beh, wd, wm, we, wi>>)
 Noop == Node("noop", <<>>, <<>>)
 
 \* partitioned 3-qudit input in iteration order: block A on (0,1), op 3 on (2) | op 6 on (0), block B on (1,2)
@@ -24,8 +24,10 @@ Circ0 == << Block(<<0, 1>>, <<Prim(1, <<0, 1>>), Prim(2, <<1>>)>>), Prim(3, <<2>
             Block(<<1, 2>>, <<Prim(4, <<0>>), Prim(5, <<0, 1>>)>>) >>
 S0 == Start(3, Circ0, 1)
 
-Leaves == IF Rich THEN {Body(1, 0, 1, 1, 1), Body(2, 0, 1, 0, 0), Body(4, 3, 1, 0, 1)}
-          ELSE {Body(1, 0, 1, 1, 1), Body(2, 0, 1, 0, 0)}
+\* body 1 also mutates the pre-existing cell in place, body 2 rebinds its key (so "mutate", "rebind", "mutate then rebind",
+\* "rebind then mutate the new object" all occur under every control node); body 4 edits the mapping lists in place
+Leaves == IF Rich THEN {Body(1, 0, 1, 1, 1, 1), Body(2, 0, 1, 0, 0, 2), Body(4, 3, 1, 0, 1, 3)}
+          ELSE {Body(1, 0, 1, 1, 1, 1), Body(2, 0, 1, 0, 0, 2)}
 ScriptChoices == IF Rich THEN {<<>>, <<TRUE>>, <<FALSE, TRUE>>, <<TRUE, TRUE, FALSE, TRUE>>}
                  ELSE {<<>>, <<TRUE>>, <<TRUE, TRUE, FALSE, TRUE>>}
 
@@ -82,6 +84,7 @@ E == Env(script, {}, <<>>)
 res == Exec(tree, <<>>, S0, E)                                   \* L1 result of the case
 res2 == Exec(tree, <<>>, S0, Env(script, {"dtd", "par"}, <<>>))   \* with restore modelled as PassData.become works today
 l2d == res2.data # res.data
+res3 == Exec(tree, <<>>, S0, Env(script, {"shallow"}, <<>>))       \* DoThenDecide's snapshot is a shallow copy
 RootKey == << <<>>, -1 >>
 RECURSIVE LeadingTrues(_)
 LeadingTrues(s) == IF Len(s) = 0 \/ ~s[1] THEN 0 ELSE 1 + LeadingTrues(SubSeq(s, 2, Len(s)))
@@ -163,6 +166,18 @@ L2OnlyMappings ==
          IN /\ r2.log = R.log /\ r2.circ = R.circ /\ r2.failed = R.failed /\ r2.pos = R.pos
             /\ Strip(r2.data) = Strip(R.data)
             /\ (~HasKind(tree, "dtd") /\ ~HasKind(tree, "par")) => r2.data = R.data
+\* a shallow snapshot changes nothing but the value of the pre-existing cell, and only below a DoThenDecide; the store of
+\* cell objects agrees with the data in both readings
+RECURSIVE StripCell(_)
+StripCell(d) == [d EXCEPT !.cell = InitCell, !.cr = 0,     \* (no tree of the enumeration has two ForEachBlockPasses)
+                          !.fe = [x \in 1..Len(d.fe) |-> [j \in 1..Len(d.fe[x]) |-> [dat |-> StripCell(d.fe[x][j].dat), rep |-> d.fe[x][j].rep]]]]
+ShallowOnlyCell ==
+  LET R == res IN
+  Run => LET r3 == res3
+         IN /\ r3.log = R.log /\ r3.circ = R.circ /\ r3.failed = R.failed /\ r3.pos = R.pos
+            /\ StripCell(r3.data) = StripCell(R.data)
+            /\ ~HasKind(tree, "dtd") => r3.data = R.data
+            /\ R.heap[R.data.cr] = R.data.cell /\ r3.heap[r3.data.cr] = r3.data.cell
 \* every scripted evaluation is accounted for; a failure stops everything after it
 Sanity ==
   LET R == res IN
@@ -170,5 +185,5 @@ Sanity ==
          /\ (~HasKind(tree, "body")) => R.log = <<>>
          /\ IsPrefix(S0.pos, R.pos)
 
-Export == Run => LET R == res IN PrintT(<<"CASE", ToJson([tree |-> tree, script |-> script, l2d |-> (res2.data # R.data), failed |-> R.failed])>>)
+Export == Run => LET R == res IN PrintT(<<"CASE", ToJson([tree |-> tree, script |-> script, l2d |-> (res2.data # R.data), l2s |-> (res3.data # R.data), failed |-> R.failed])>>)
 =============================================================================
